@@ -1,5 +1,6 @@
 import NirVerif.Lemmas.FileForm
 import NirVerif.Lemmas.Inference
+import NirVerif.Lemmas.MetaInert
 
 /-! # C16 — metadata is carried faithfully and is semantically inert
 
@@ -106,6 +107,42 @@ theorem inert_infer_types (g : Node) :
       intro k n0 h0
       obtain ⟨n, hn, hfr⟩ := hf.2 k n0 h0
       exact ⟨n, hn, hfr.2.1⟩
+
+/-- **Construction-time types do not depend on metadata**: for every primitive, attaching or
+changing the `metadata` keyword changes the constructed node in its `metadata` field only (and
+cannot turn a rejected parameter set into an accepted one or vice versa). -/
+theorem inert_construction (kind : String) (f : List (String × Val)) (m : Val) :
+    postInit kind (Py.insert "metadata" m f) = (postInit kind f).map (fun n => Node.setMeta n m) :=
+  postInit_meta kind f m
+
+/-- **The inference loop body is blind to metadata**: with *any* metadata on the two nodes the
+step computes the same types, the same `input_shape`, and raises the same error. -/
+theorem inert_step (pre post : Node) (m1 m2 : Val) :
+    stepNode (Node.setMeta pre m1) (Node.setMeta post m2) =
+      (Node.setMeta (stepNode pre post).1 m2, (stepNode pre post).2) :=
+  stepNode_setMeta pre post m1 m2
+
+theorem lookup_mapMeta (μ : String → Val) (k : String) (nodes : Nodes) :
+    lookup k (nodes.map fun kv => (kv.1, Node.setMeta kv.2 (μ kv.1))) = (lookup k nodes).map (fun n => Node.setMeta n (μ k)) := by
+  induction nodes with
+  | nil => rfl
+  | cons kv rest ih =>
+    obtain ⟨k0, n0⟩ := kv
+    by_cases h : (k0 == k) = true
+    · have : k0 = k := by simpa using h
+      subst this
+      simp [lookup]
+    · have h' : (k0 == k) = false := by simpa using h
+      simp only [List.map_cons, lookup, h', Bool.false_eq_true, if_false, ih]
+
+/-- **The type check is blind to metadata**: replacing the metadata of every node (by any
+assignment `μ` of metadata to node names) leaves the verdict on every edge unchanged. -/
+theorem inert_check (μ : String → Val) (nodes : Nodes) (e : Edge) :
+    checkEdge (nodes.map fun kv => (kv.1, Node.setMeta kv.2 (μ kv.1))) e = checkEdge nodes e := by
+  unfold checkEdge
+  rw [lookup_mapMeta, lookup_mapMeta]
+  cases lookup e.1 nodes <;> cases lookup e.2 nodes <;>
+    simp only [Option.map, setMeta_isKind, setMeta_outputType, setMeta_inputType]
 
 /-- Non-vacuity: a nested tree with a unicode key, an int, a bool and an array under a node. -/
 example : metaBack (.int 159) = some (.npscalar DType.int64 (encodeInt DType.int64 159)) ∧
